@@ -267,3 +267,23 @@ def confirm_violations(rep, exes):
             continue
         if sig not in a or sig not in b:
             v["detail"] = "[not reproduced alone: replays gave %s / %s] %s" % (a, b, v["detail"])
+
+
+# ---------------------------------------------------------------- shared reclassification (C01, C02, C07)
+def self_referential(src):
+    """a note definition whose own (lazily continued) text calls the same note at least twice"""
+    for m in re.finditer(r"(?m)^\[([\^#?>])([^\]]+)\]:(.*(?:\n(?!\n).*)*)", src):
+        call = "[%s%s]" % (m.group(1), m.group(2))
+        if m.group(3).count(call) >= 2: return True
+    return False
+def reclassify_self_referential_notes(rep):
+    """hangs / stack overflows whose input is a self-referential note get their own signature (one root cause: the LaTeX and
+    OpenDocument writers expand notes inline, so a note that calls itself twice expands exponentially within the 1000-deep guard)"""
+    for sig in list(rep.viol):
+        if sig == "hang" or sig.startswith("crash:signal") or sig.startswith("asan:stack-overflow"):
+            v = rep.viol[sig]
+            if v["cases"] and all(self_referential(c.get("src", "")) and c.get("format") in ("latex", "beamer", "memoir", "fodt", "odt") for c in v["cases"]):
+                del rep.viol[sig]
+                n = rep.viol.setdefault("self-referential-note:inline-expansion-does-not-return", dict(count=0, detail=v["detail"], cases=[], replay=v.get("replay")))
+                n["count"] += v["count"]; n["cases"] = (n["cases"] + v["cases"])[:3]
+
